@@ -327,12 +327,12 @@ PROPERTIES['C07'] = {
 PROPERTIES['C13'] = {
     'level': 'proof',
     'configs': lambda tier: [B, D] if tier == 'quick' else [B, D, extract.flip(B, 'nostats'), extract.flip(D, 'nostats')],
-    'rules': [R(mutex.mx1), R(mutex.mx2), R(mutex.mx3)],
+    'rules': [R(mutex.mx1), R(mutex.mx2), R(mutex.mx3), R(mutex.mx4)],
     'technique': 'static analysis: forward dataflow (named owning guard alive at every access to the wrapped index), path-sensitive rule for the lock handed out with a hit',
     'explanation': 'MX-1: by forward dataflow over every member function of both mutex_db instantiations (scan member templates and statistics getters included), every access to the wrapped db happens while a NAMED std::lock_guard/std::unique_lock constructed on the one `mutex` member is alive and owning '
                    '(an unnamed temporary lock dies at the end of its statement and does not count; unlock() ends ownership). Hence every operation runs inside one critical section of one mutex: operations are totally ordered by lock acquisition and each behaves as the sequential db, i.e. linearizable. '
                    'MX-3: no member function takes the mutex twice on one path (a second lock object, or a call of another locking member): one operation is one critical section, no check-then-act. '
-                   'MX-2: path-sensitively on the has-value test of the lookup result, get_internal returns std::move(guard) (still owning) exactly on has-value paths and an empty lock exactly on no-value paths; no other member returns a lock type.',
+                   'MX-4: no member function returns a reference or pointer - every result is a value copied under the lock (a reference to the live node counters would be read after the guard is gone). MX-5: the lock object never leaves its function - not captured by a lambda, not passed on by reference (a scan callback that may unlock it ends the critical section mid-operation); returning it by std::move is judged by MX-2. MX-2: path-sensitively on the has-value test of the lookup result, get_internal returns std::move(guard) (still owning) exactly on has-value paths and an empty lock exactly on no-value paths; no other member returns a lock type.',
     'decides': 'atomicity of every mutex_db operation; lock handed out exactly on a hit',
     'does_not_decide': 'sequential correctness of db (C01), correctness of std::mutex',
     'trusted_base': ['clang 14 front end', 'usa extractor and rule engine', 'std::mutex / std::lock_guard / std::unique_lock semantics', 'sequential correctness of unodb::db'],
@@ -385,12 +385,12 @@ PROPERTIES['C06'] = {
 PROPERTIES['C11'] = {
     'level': 'other',
     'configs': one,
-    'rules': [R(enc.enc1), R(lambda cfg: enc.encaff(cfg, sides=('encode',))), R(lambda cfg: enc.enc3(cfg, mode='order')), R(enc.enc4), R(enc.enc5), R(enc.enc6), R(enc.enc7), R(enc.cmp_shape)],
+    'rules': [R(enc.enc1), R(lambda cfg: enc.encaff(cfg, sides=('encode',))), R(lambda cfg: enc.enc3(cfg, mode='order')), R(enc.enc4), R(enc.enc5), R(enc.enc6), R(enc.enc7), R(lambda cfg: enc.enc8(cfg, classes=(enc.ENCODER,))), R(enc.cmp_shape)],
     'technique': 'static analysis: abstract interpretation of the encoder expression trees (affine x interval domain for integers, class-wise abstract walk with bit-parallel comparison for floats), width table, text-framing typestate, comparator shape',
     'explanation': 'Order preservation of the key encoder, decided from the source expressions: ENC-1/2 every fixed-size overload occupies exactly sizeof(T) bytes and multi-byte values are written big-endian (bswap of their own width, nothing else); '
                    'ENC-AFF each signed encode is EXACTLY v + 2^(w-1) on the whole domain - slope +1, no wrap, by affine x interval evaluation of the expression tree on both branches of the sign test - hence an order isomorphism onto the unsigned range (all four widths); '
                    'ENC-3 floating point by an abstract walk of encode_floating_point per class of the float domain (NaN of either sign, +inf, -inf, sign-clear finite, sign-set finite): NaN -> all ones, +inf -> max-1, -inf -> 0, finite -> bits|msb resp. ~bits, the bit transform compared as a bit-parallel function on complementary representatives (sound for the operator set & | ^ ~); '
-                   'ENC-7 get_key_view() is exactly (buf, off) and a span append reserves, copies and advances by the same n; ENC-6 capacity discipline: ensure_available(req) grows exactly when off + req > cap and asks for off + req, the helper allocates and records bit_ceil of that; ENC-5 buffer growth keeps the bytes encoded so far on every path (copied before the old block is released or replaced - a multi-component key keeps its leading components); ENC-4 text: view clamped to maxlen (test on the full-width length) before any byte is read, trailing pad stripped down to the empty text, emission body + pad + 16-bit run length; CMP-2 compare() = memcmp over the common length, then length.',
+                   'ENC-7 get_key_view() is exactly (buf, off) and a span append reserves, copies and advances by the same n; ENC-6 capacity discipline: ensure_available(req) grows exactly when off + req > cap and asks for off + req, the helper allocates and records bit_ceil of that; ENC-5 buffer growth keeps the bytes encoded so far on every path (copied before the old block is released or replaced - a multi-component key keeps its leading components); ENC-4 text: view clamped to maxlen (test on the full-width length) before any byte is read, trailing pad stripped down to the empty text, emission body + pad + 16-bit run length; CMP-2 compare() = memcmp over the common length, then length. ENC-8 every encode / decode / reset member returns a reference to the object itself (`T &`, `return *this`): the documented use is chaining, and a member returning a copy lets the rest of the chain run on a temporary while the object keeps a stale offset.',
     'decides': 'integer order isomorphism (exact), big-endian layout, special-value codes and class mapping of floats, text framing, comparator shape',
     'does_not_decide': 'monotonicity of the IEEE-754 bit pattern within the finite classes (the classical lemma that sign-magnitude bit patterns order like the values is trusted), lexicographic order of tuples as a consequence of fixed widths',
     'trusted_base': ['clang 14 front end', 'usa extractor and rule engine', 'IEEE-754: within one sign, larger bit pattern <=> larger magnitude', '__builtin_bswapN reverses byte order'],
@@ -398,22 +398,22 @@ PROPERTIES['C11'] = {
 PROPERTIES['C12'] = {
     'level': 'other',
     'configs': one,
-    'rules': [R(enc.enc1), R(enc.encaff), R(lambda cfg: enc.enc3(cfg, mode='inverse')), R(enc.enc5), R(enc.enc6), R(enc.enc7)],
+    'rules': [R(enc.enc1), R(enc.encaff), R(lambda cfg: enc.enc3(cfg, mode='inverse')), R(enc.enc5), R(enc.enc6), R(enc.enc7), R(enc.enc8)],
     'technique': 'static analysis: encoder/decoder sibling agreement (overload sets, widths), affine x interval abstract interpretation of both sides (inverse biases), class-wise abstract walk of the float decoder, use-after-free typestate on the buffer pointer',
     'explanation': 'Decoding inverts encoding: ENC-1 encoder and decoder overload sets agree and every fixed-size component moves the offset by exactly sizeof(T) on both sides; ENC-2 the decoder applies the byte swap to exactly the bytes it copied out; '
                    'ENC-AFF each signed decode is exactly u - 2^(w-1), the inverse of the encode bias v + 2^(w-1) (affine x interval, whole domain, no wrap); ENC-3 the decoder maps the code classes (all ones, max-1, 0, msb set, msb clear) to canonical quiet NaN, +inf, -inf, bits^msb, ~bits - the exact inverses of the encoder classes; '
-                   'ENC-5 buffer growth copies the encoded bytes before the old block is released or replaced (use-after-free typestate on the buffer pointer), releases it iff heap-allocated, reset only zeroes the offset; ENC-6 capacity discipline of ensure_available / ensure_capacity (request off + req, allocate and record bit_ceil of it).',
+                   'ENC-5 buffer growth copies the encoded bytes before the old block is released or replaced (use-after-free typestate on the buffer pointer), releases it iff heap-allocated, reset only zeroes the offset; ENC-6 capacity discipline of ensure_available / ensure_capacity (request off + req, allocate and record bit_ceil of it). ENC-8 every encode / decode / reset member returns a reference to the object itself (`T &`, `return *this`): the documented use is chaining, and a member returning a copy lets the rest of the chain run on a temporary while the object keeps a stale offset.',
     'decides': 'inverse relation of every overload pair; fixed component sizes; growth/reset keep the bytes',
     'does_not_decide': 'bit_cast implementation (memcpy-based, trusted)',
 }
 PROPERTIES['C15'] = {
     'level': 'other',
     'configs': one,
-    'rules': [R(enc.enc1), R(enc.enc4), R(enc.enc5), R(enc.enc6), R(enc.enc7), R(lambda cfg: enc.enc3(cfg, mode='order'))],
+    'rules': [R(enc.enc1), R(enc.enc4), R(enc.enc5), R(enc.enc6), R(enc.enc7), R(lambda cfg: enc.enc8(cfg, classes=(enc.ENCODER,))), R(lambda cfg: enc.enc3(cfg, mode='order'))],
     'technique': 'static analysis: width table of the overload set, ordering/typestate rule on text normalisation and framing, class-wise abstract walk of the float encoder (NaN unification)',
     'explanation': 'Structural generators of prefix freedom: ENC-1 every non-text component has a fixed width independent of its value (two keys of equal schema that differ in a fixed-width component differ at the same offset); '
                    'ENC-4 a text field is body.pad.runlength with the view cut to maxlen BEFORE padding is stripped (normalisation order), every trailing pad byte stripped (so texts equal after normalisation are byte-equal), reads bounded by maxlen, emission bounded by maxlen + 3; '
-                   'ENC-3 every NaN, whatever its sign or payload, is mapped to one code (NaN unification), -0 and +0 stay distinct (different classes); ENC-5 / ENC-6 the bytes of the components encoded so far survive every growth of the buffer and the buffer is grown to off + req (otherwise tuples that differ only in a leading component encode byte-equal).',
+                   'ENC-3 every NaN, whatever its sign or payload, is mapped to one code (NaN unification), -0 and +0 stay distinct (different classes); ENC-5 / ENC-6 the bytes of the components encoded so far survive every growth of the buffer and the buffer is grown to off + req (otherwise tuples that differ only in a leading component encode byte-equal). ENC-8 every encode / decode / reset member returns a reference to the object itself (`T &`, `return *this`): the documented use is chaining, and a member returning a copy lets the rest of the chain run on a temporary while the object keeps a stale offset.',
     'decides': 'fixed widths, text normalisation order and framing, NaN unification',
     'does_not_decide': 'the combinatorial argument that body.0x00.len is prefix-free across different bodies (needs the no-interior-zero precondition)',
 }
